@@ -122,13 +122,14 @@ def X():
 
 
 def _HI(history, name):
-    sub = Machine('SubH', [['S1', 'S2', 'S3'], ['T1', 'T2']],
-                  [St('S3', kind='direct', region=0)],
+    sub = Machine('SubH', [['S1', 'S2', 'S3'], ['T1', 'T2'], ['U1', 'U2']],
+                  [St('S3', kind='direct', region=0), St('U2', kind='direct', region=2)],
                   [Row('S1', 'e0', 'S2', act=1),
                    Row('S2', 'e0', 'S3', act=2, guard=1),
                    Row('S3', 'e0', 'S1', act=3),
                    Row('T1', 'e3', 'T2', act=4, guard=2),
-                   Row('T2', 'e3', 'T1', act=5)],
+                   Row('T2', 'e3', 'T1', act=5),
+                   Row('U1', 'e3', 'U2', act=6, guard=5)],
                   history=history)
     m = Machine(name, [['A', 'SubH']],
                 [St('SubH', kind='sub', sub=sub)],
@@ -136,14 +137,17 @@ def _HI(history, name):
                  Row('A', 'e2', 'SubH', act=11, guard=3),
                  Row('A', 'e4', ('direct', 'SubH', ['S3']), act=12),
                  Row('A', 'e5', ('direct', 'SubH', ['S3']), act=15),
+                 Row('A', 'e6', ('direct', 'SubH', ['S3', 'U2']), act=16),   # fork naming two of the three regions
                  Row('SubH', 'e7', 'A', act=13),
                  Row('SubH', 'e1', 'SubH', act=14, guard=4)])
-    return Program(m, ['e0', 'e1', 'e2', 'e3', 'e4', 'e5', 'e7'])
+    p = Program(m, ['e0', 'e1', 'e2', 'e3', 'e4', 'e5', 'e6', 'e7'])
+    p.full_key = True
+    return p
 
 
 def HIn(): return _HI('none', 'HIn')
 def HIa(): return _HI('always', 'HIa')
-def HIs(): return _HI(('shallow', ['e1', 'e5']), 'HIs')
+def HIs(): return _HI(('shallow', ['e1', 'e5', 'e6']), 'HIs')
 
 
 def A():
